@@ -64,6 +64,15 @@ def rule_table(ctx):
         refused = p.outcome == 'Option::None()'
         empty = p.outcome.startswith('Option::Some(call:Arc::new(call:PayloadDelta::empty(serial)')
         loc = p.ret_site.loc() if p.ret_site else None
+        mt = re.match(r'^call:<impl bool>::then\((?:call:PartialEq>::eq|Eq)\((serial,const\(0\)|const\(0\),serial)\),.*\{closure#(\d+)\}.*\)$', p.outcome or '')
+        if front == {'None'} and c_zero is None and mt:
+            # `(serial == 0).then(|| Arc::new(PayloadDelta::empty(serial)))`: both rows in one expression
+            outs = [cp.outcome or '' for c in ctx.closures(b) if c.nid.endswith('{closure#%s}' % mt.group(2)) for cp in enumerate_paths(c, ctx.facts)]
+            good = bool(outs) and all(o.startswith('call:Arc::new(call:PayloadDelta::empty(') for o in outs)
+            seen.add('nohist,0')
+            seen.add('nohist,!0')
+            ctx.check(good, 'K4', 'delta_since:no-history,serial=0', 'empty delta exactly for serial 0', 'no history -> %s with closure %s' % (p.outcome, outs), loc=loc)
+            continue
         if front == {'None'}:
             if c_zero == {'Equal'}:
                 seen.add('nohist,0')
